@@ -277,6 +277,12 @@ func sweepProcesses() {
 			break
 		}
 		cmd := exec.Command(os.Args[0], "-child", strconv.Itoa(ord))
+		// the same order is in force while the child's packages are initialised
+		var ic []string
+		for _, d := range orderChoices(ord) {
+			ic = append(ic, strconv.Itoa(d))
+		}
+		cmd.Env = append(os.Environ(), "VRT_INIT_CHOICES="+strings.Join(ic, ","))
 		bs, err := cmd.Output()
 		if err != nil {
 			h.Fatal("child %d failed: %v", ord, err)
